@@ -426,8 +426,13 @@ func postCheck(o *recOS, p string) string {
 			return fmt.Sprintf("recording OS env %s still set to %q", rest, got)
 		}
 	case "cwd":
-		if got, _ := o.v.Getwd(); got != rest {
-			return fmt.Sprintf("recording OS cwd %q, want %q", got, rest)
+		// (a relative argument composes with the working directory the recording OS started in)
+		want := rest
+		if !filepath.IsAbs(want) {
+			want = filepath.Join(o.cwd0, want)
+		}
+		if got, _ := o.v.Getwd(); filepath.Clean(got) != filepath.Clean(want) {
+			return fmt.Sprintf("recording OS cwd %q, want %q", got, want)
 		}
 	case "stdout":
 		if got := o.stdoutText(); got != rest {
